@@ -10,6 +10,7 @@ C01.d  [order] RV_<Automatic>: activating constructors call initialEnter exactly
        calls finalExit exactly once.
 C01.e  [cmp] activeStateId() returns the active slot; RV_<Manual>::isActive() == (active != invalid).
 C01.f  [table] save()/load() field tables agree and the buffer is cleared before the first write (precondition of the load rule).
+C01.h  [order] every dispatcher of every callback kind is a correct binary search step (shares C14.b)
 C01.g  [effect] copy/move construction and assignment of library objects write only the object they initialise: the machine copied
        or moved from keeps its registry (it stays a live object whose destructor / exit() runs finalExit()).
 """
